@@ -41,6 +41,7 @@ def dispatch (d : DS) (line : String) : DS × String :=
   | "C10" :: rest => let (s, o) := Driver.Chan.handle "C10" d.chan rest; ({ d with chan := s }, o)
   | "C11" :: "rf" :: rest => (d, Driver.C11.handle ("rf" :: rest))
   | "C11" :: rest => let (s, o) := Driver.Chan.handle "C11" d.chan rest; ({ d with chan := s }, o)
+  | "C18" :: "rf" :: rest => (d, Driver.C11.handle18 ("rf" :: rest))
   | "C18" :: rest => let (s, o) := Driver.Chan.handle "C18" d.chan rest; ({ d with chan := s }, o)
   | "C07" :: rest =>
     match rest with
